@@ -75,6 +75,18 @@ def run(chk, searching=False):
     programs.append(("starttls", [("LOGIN", None), ("SELECT", "INBOX"), ("SELECT", "Nope"), ("FETCH", "1 (FLAGS)"), ("STORE", "1 +FLAGS (\\Seen)"),
                                  ("SELECT", "INBOX"), ("EXAMINE", "Roles/%s/INBOX" % P.R2), ("FETCH", "1 (FLAGS)"), ("EXPUNGE", ""), ("STARTTLS", ""), ("LOGIN", None)]))
     sess = P.run_sessions(chk, programs)
+    # an account whose LOGIN the server refuses although the backend says 200
+    # (admin-provisioned, password not initialised): the session must stay unauthenticated
+    refused = [("LOGIN", None), ("LIST", '"" "*"'), ("STATUS", "INBOX (MESSAGES)"), ("SELECT", "INBOX"), ("FETCH", "1 (FLAGS)"), ("CREATE", "Zed"),
+               ("AUTHENTICATE", None), ("LSUB", '"" "*"'), ("APPEND", "INBOX")]
+    for kind in ("tls", "starttls"):
+        ops, index = P.compile_program(kind, refused, user=P.NEWHIRE)
+        base = P.setup_ops()
+        r = C.run_ops(base + ops, timeout=300)
+        if not r.get("crashed"):
+            nb = len(base)
+            shifted = [(f + nb, l + nb, tag, w, a) for (f, l, tag, w, a) in index if l + nb < len(r["obs"])]
+            sess.append({"kind": kind, "prog": refused, "crashed": False, "lines": P.observe(r["obs"], shifted, r["obs"][nb - 1], user=P.NEWHIRE), "user": P.NEWHIRE})
     good = [s for s in sess if not s["crashed"]]
     if len(good) < len(sess) // 2:
         chk.broken_obligation("more than half of the protocol scenarios crashed the driver: %s" % (sess[0].get("stderr") if sess else ""))
